@@ -14,7 +14,7 @@ class C12(PropBase):
         out = []
         gid = 0
         for _ in range(nu):
-            items = ls.universe(rng, v)
+            items = [e for e in ls.universe(rng, v) if ':' not in e and '?' not in e]      # entries are Sid strings, not uris (the theorem's plain_entry guard)
             for _ in range(ns):
                 gid += 1
                 r = rng.random()
